@@ -177,3 +177,75 @@ PROPS["C03"] = dict(
     level_text="Sampled programs x all configurations, each file judged by an independent validator and by the hook-instrumented library reader.",
     level_note="Trusted base: pyref/validate.py (self-test with one negative file per rule), pyref/pdf.py, hooks H3.",
 )
+
+PROPS["C05"] = dict(
+    title="Encryption round-trips for every strength, configuration and password",
+    level="exploration",
+    technique="differential monitor: every authoring program is written plain and encrypted (4 strengths) under sampled writer configurations; the numbering-independent object graph reachable from /Root and /Info (strings, stream dictionaries, decoded stream data by hash) read back through the library after unlock(user) and unlock(owner) must equal the plain build's graph; the independent implementation (pyref.crypto) decrypts the same file and must reach the same graph (this is also C06's direction B); wrong passwords must be refused and must not expose the plaintext graph; /P must equal the requested permissions",
+    stages=[rust(id="DOC", args={"flavor": "c05"}), rust(id="OBS", args={"dir": "{out}/cases"}), py("pyref.checks.c05")],
+    rule="programs (strings in Info, annotations, outlines; content and image streams) x 5 sampled configurations x {RC4-40, RC4-128, AES-128, AES-256} x password pairs from {empty, ASCII, symbols, Latin-1, BMP, astral, 33 bytes, 127 bytes} x permission words (random 8-bit sets, all) x {user, owner, wrong password}. Every (file, password role) counts; distinct by (file, role)",
+    assumptions=["the plain build of the same program under the same configuration is the reference content", "an empty user password makes the wrong-password case moot (anybody may open the file)"],
+    floors={"quick": {"evaluations": 800, "distinct": 500, "counters": {"ref_decryptions": 300, "obs": 500}}, "thorough": {"evaluations": 30000, "distinct": 20000}},
+    level_text="Sampled programs, configurations and passwords with an exact graph-equality oracle on both the library's and the independent implementation's reading.",
+    level_note="Trusted base: pyref/crypto.py (anchored to qpdf fixtures), pyref/pdf.py.",
+)
+
+PROPS["C20"] = dict(
+    title="Writing the same document twice gives identical bytes",
+    level="exploration",
+    technique="byte-equality monitor: each authoring program (fonts, images, ExtGStates, annotations, outlines, named destinations) is serialised through PdfWriter::write_document (dates set explicitly) twice from one Document, once more from a freshly built Document, and by a second process with different hash seeds; any difference is a violation with the first differing offset; for to_bytes() one second apart, differing bytes must lie inside date fields",
+    stages=[rust(id="C20"), py("pyref.checks.c20")],
+    rule="rich docgen programs x all unencrypted writer configurations (quick: the 16 without object streams + 2 sampled with) x {same Document twice, fresh Document, second process}. Every (program, configuration) counts; distinct by (program, configuration)",
+    assumptions=["dates are fixed with set_creation_date / set_modification_date and write_document is called directly (no Utc::now() on that path)"],
+    floors={"quick": {"evaluations": 1500, "distinct": 800, "counters": {"cross_process_pairs_compared": 700}}, "thorough": {"evaluations": 60000, "distinct": 30000}},
+    level_text="Sampled programs over the configuration lattice with an exact oracle; cross-process comparison exercises different HashMap seeds.",
+    level_note="Trusted base: none beyond byte comparison.",
+)
+
+PROPS["C10"] = dict(
+    title="Text given through the API reads back unchanged",
+    level="exploration",
+    technique="round-trip oracle over text classes: strings given to set_title/author/subject/keywords/creator/producer, annotation contents and outline titles are read back from the written bytes by an independent reader applying the text-string rule of ISO 32000-1 7.9.2.2 (UTF-16BE BOM, UTF-8 BOM, else PDFDocEncoding) and by the library (metadata()); differences are classified by how the bytes were actually encoded",
+    stages=[rust(id="DOC", args={"flavor": "c10"}), rust(id="OBS", args={"dir": "{out}/cases"}), py("pyref.checks.c10")],
+    rule="text classes {ASCII, ASCII with PDF delimiters and backslash, Latin-1, cp1252-only, BMP (Greek/Cyrillic/CJK), astral, controls incl. TAB/CR/LF, BOM-like prefix} x 6 Info entries, annotation /Contents, outline titles x 3 sampled writer configurations. Non-trivial: at least one non-ASCII class in the document; distinct by file",
+    assumptions=["form-field values and incremental fills are exercised with C17's histories, not here"],
+    floors={"quick": {"evaluations": 600, "distinct": 300, "counters": {"strings_checked": 3000}}, "thorough": {"evaluations": 40000, "distinct": 20000}},
+    level_text="Sampled strings per class, exact equality oracle on both readers.",
+    level_note="Trusted base: pyref text-string decoder + transcribed PDFDocEncoding table.",
+)
+
+PROPS["C28"] = dict(
+    title="Outlines and destinations written are navigable as authored",
+    level="exploration",
+    technique="structural monitor on the written outline: an independent reader walks /First../Next and checks /Prev, /Parent, /Last, the /Count of every item and of the root against the visible-descendant rule with the closed-item sign convention, titles, and that every /Dest and every named destination (through the /Names tree, any depth) resolves to the authored page object",
+    stages=[rust(id="DOC", args={"flavor": "c28"}), py("pyref.checks.c28")],
+    rule="outline forests (depth <=4, 0-4 children per item, random closed flags, 5 destination kinds on random pages) and 0-12 named destinations, on 1-6 page documents x 3 sampled configurations. Non-trivial: document has an outline or named destinations; distinct by file",
+    assumptions=["titles are ASCII here (Unicode titles are C10's subject)"],
+    floors={"quick": {"evaluations": 600, "distinct": 400, "counters": {"outline_items_checked": 2000}}, "thorough": {"evaluations": 40000, "distinct": 25000}},
+    level_text="Sampled forests with an exact structural oracle.",
+    level_note="Trusted base: pyref/pdf.py.",
+)
+
+PROPS["C09"] = dict(
+    title="Serialized objects parse back to the same value",
+    level="exploration",
+    technique="round-trip oracle on the serialisers themselves (hook H4): generated object trees are serialised by the writer's direct and object-stream serialisers and by the incremental writer's serialiser; the bytes are parsed back by the library's parser (in process) and by an independent strict parser (offline), both compared value-by-value with the tree; single characters are enumerated exhaustively in names, byte strings and text strings",
+    stages=[rust(), py("pyref.checks.c09")],
+    rule="trees to depth 6 / 200 nodes over null, booleans, integers incl. i64::MIN/MAX, reals incl. subnormals and values up to 3e38, text strings (ASCII, delimiters, CR/LF/TAB, Latin-1, BMP, astral), byte strings over all byte values, names (regular, with space, delimiters, '#', empty, non-ASCII, controls), references, arrays, dictionaries; plus every single byte 0..255 inside a name, a byte string and a text string. Non-trivial: containers and the single-character cases; distinct by case id",
+    assumptions=["Object::String carries text: it must read back as the same text under the text-string rule (7.9.2.2); Object::ByteString carries bytes and must read back byte-exact", "reals are compared within the writer's 6-decimal format"],
+    floors={"quick": {"evaluations": 20000, "distinct": 5000, "counters": {"serialisations_read_by_reference": 40000}}, "thorough": {"evaluations": 1000000, "distinct": 200000}},
+    level_text="Sampled trees plus exhaustive single-character enumeration; exact value oracle on two parsers.",
+    level_note="Trusted base: pyref/pdf.py strict lexer; hook H4 calls the writer's own private serialisers.",
+)
+
+PROPS["C21"] = dict(
+    title="Content streams parse back to the operators that were written",
+    level="exploration",
+    technique="three-way comparison per generated API-call sequence: the page's typed operator IR (hook H5), an independent strict tokenisation of the emitted content bytes, and the result of ContentParser::parse on those bytes; operands after the documented rounding and finite_or_zero sanitising, show-text operands as the WinAnsi bytes of the input text; panic monitor and CPU budget for ContentParser::parse on arbitrary and mutated bytes",
+    stages=[rust(), py("pyref.checks.c21")],
+    rule="sequences of 1-25 calls over 34 GraphicsContext/TextContext methods (paths, painting, RGB/gray/CMYK colours, line state, dash, q/Q, cm variants, clipping, ExtGState opacity, text state and show-text in 5 fonts) with arguments from {uniform, 0, -0.0, 0.004/0.005/0.006, +-1e-7, 1e15, 1e300, 5e-324, NaN, +-inf}; termination part: random bytes, mutated seeds, deep array nesting, truncated inline images. distinct_nontrivial = distinct emitted content streams",
+    assumptions=["IR variants without a modelled operator (comments, raw) are skipped in the operand comparison but still counted", "Symbol/ZapfDingbats text bytes are not compared (font-specific encodings)"],
+    floors={"quick": {"evaluations": 50000, "distinct": 8000, "counters": {"sequences_checked": 10000}}, "thorough": {"evaluations": 2000000, "distinct": 250000}},
+    level_text="Sampled call sequences with exact operator/operand oracles; termination clause by bounded CPU budget per input.",
+    level_note="Trusted base: pyref content tokenizer; hook H5.",
+)
